@@ -82,6 +82,7 @@ def finite_difference(blk: Module, fromsig: Union[Signal, Iterable[Signal]] = No
 
     # Initial reset in case some memory is still left
     blk.reset()
+    [s.reset() for s in inps]  # Also the parts of the inputs that are not used by (slices in) the modules
 
     # Perform response
     blk.response()
